@@ -152,6 +152,11 @@ def gen_cases(chk):
         # prior volume far below the float64 underflow of exp (log X < -745) while the likelihood keeps rising:
         # the mass sits where exp(log_vol) is 0.0 in double precision (seeded change C02-logsubexp-linear-underflow)
         add(mode, [0.75 * i for i in range(1200)], [1] * 1200, 1, True, "deep volume: log X below -745, rising likelihood")
+        # a broad prior: the first dead points lie thousands of nats below the bulk, each new shell outweighs everything
+        # accumulated so far by far more than exp() can represent (seeded change C02-increment-relative-update-overflow)
+        steep = [-1.0e5, -4.2e4, -9.5e3, -2.2e3, -800.0] + [-60.0 + 0.5 * i for i in range(120)]
+        add(mode, steep, [50] * (len(steep) - 50) + list(range(50, 0, -1)), 50, True, "steep start: jumps of more than 709 nats")
+        add(mode, [l + 1.0e5 for l in steep], [3] * len(steep), None, False, "steep start shifted by +1e5, three live points")
     lengths = [1, 2, 3, 5, 8, 13, 30, 60, 120, 300] if quick else \
         [1, 2, 3, 5, 8, 13, 30, 60, 120, 300, 300, 700, 1500, 3000, 5000]
     reps = 2 if quick else 4
